@@ -211,6 +211,7 @@ func checkC01(r *Report, known []Finding) {
 	c02RevSuffixTie(r) // IsMatch of the reverse-suffix strategy vs its Lean model and regexp
 	c02StrategyTies(r) // the same for reverse inner / reverse anchored / reverse suffix set / multiline reverse suffix
 	c02MetaFindTie(r)  // IsMatch (and FindIndices) of the core dispatch vs Cx.MetaFind and regexp
+	c01BigInputs(r)    // Match on inputs around the capacity limits of the engines (non-ASCII: the ASCII variants do not apply)
 	c02MetaFind2Tie(r) // IsMatch of UseDigitPrefilter / UseTeddy / UseBoundedBacktracker vs Cx.MetaFind2 and regexp
 	obs := append(obsMatch(), obsReader()[0], Obs{"pkg.MatchString", func(re StdAPI, h []byte) string {
 		p := re.String()
@@ -482,7 +483,9 @@ var e2eProbes = []string{
 	// class products large enough for the literal engines, WITH position assertions (the literal engines match wherever the literal occurs)
 	`\d\d\b`, `[a-j][a-j]\b`, `\b(\d)(\d)`, `(?m)^(?:` + manyLiterals(70) + `)`, `(?:` + manyLiterals(70) + `)\b`, `[a-h][a-h]\B`, `\b[0-9][a-f]`, `[0-9][0-9a-f]*h|[0-9]+px`, `[0-9][a-z0-9]*X|7Y`, `(\d[\da-z]*_id|\d{4}-\d{2})`, `[0-9]+[a-z]*\.com`, `\d+\.\d+\.\d+`,
 	`[a-z]+\.txt`, `\w+@\w+\.com`, `.*error.*`, `[a-z ]+connection[a-z ]+[0-9]`, `(?m)^/.*[0-9]\.php`, `^a.*b`, `^.+b`, `\bport.\d+`, `\Bion.\w`,
-	`[a-z]+[a-z]+[0-9]`, `(foo|bar)+x`, `"[^"]*"`}
+	`[a-z]+[a-z]+[0-9]`, `(foo|bar)+x`, `"[^"]*"`,
+	// class sequences of three and more parts (composite sequence DFA: a failed attempt followed by a match that starts inside it)
+	`[a-z]+[0-9]+[a-z]+[.,]+`, `[0-9]+\s+[0-9]+\s+[a-z]+`, `[A-Z]+[a-z]+[A-Z]+[a-z]+[0-9]+`, `[ab]{2,}[bc]{2,}[ca]{2,}`}
 
 var engCache sync.Map // pattern -> *meta.Engine
 
@@ -543,5 +546,42 @@ func obsEngineFind() []Obs {
 			}
 			return strings.Join(out, ",")
 		}},
+	}
+}
+
+// c01BigInputs: Match / MatchString on haystacks of 0.8 - 3 MB, ASCII and non-ASCII, for start-anchored dot patterns under the
+// backtracker strategy: the boolean dispatch chooses between the ASCII backtracker, the full one and the Pike VM by size checks
+// that differ per automaton; an input one engine cannot handle must go to the next, never be answered "false".
+func c01BigInputs(r *Report) {
+	t := r.Tie("Match on 0.8 - 3 MB inputs (ASCII and non-ASCII) == regexp")
+	sizes := []int{800000, 1800000}
+	if r.Tier == "thorough" {
+		sizes = []int{400000, 800000, 1300000, 1800000, 2300000, 3000000}
+	}
+	for _, c := range []struct{ p, head, unit, tail string }{
+		{`^/.*[\w-]+\.php`, "/", "é", "x.php"}, {`^(\w+)\s.*=`, "key ", "é", "="}, {`^ERROR: .*timeout`, "ERROR: ", "日本語", " timeout"}, {`^/.*[\w-]+\.php`, "/", "a", "x.php"},
+	} {
+		std := regexp.MustCompile(c.p)
+		cx, err := coregex.Compile(c.p)
+		if err != nil {
+			continue
+		}
+		for _, n := range sizes {
+			for _, withTail := range []bool{true, false} {
+				h := []byte(c.head + strings.Repeat(c.unit, n/len(c.unit)))
+				if withTail {
+					h = append(h, c.tail...)
+				}
+				want := fmt.Sprint(std.Match(h))
+				got := guard(240*time.Second, func() string { return fmt.Sprint(cx.Match(h)) })
+				t.Cases++
+				r.Case(fmt.Sprintf("big\x00%s\x00%s\x00%d\x00%v", c.p, c.unit, n, withTail), want == "true")
+				if got != want {
+					t.Disagreements++
+					r.Violate(fmt.Sprintf("Match of %q on %q + %d bytes of %q + %q: coregex=%s regexp=%s", c.p, c.head, n, c.unit, map[bool]string{true: c.tail, false: ""}[withTail], got, want),
+						map[string]any{"pattern": c.p, "haystack": fmt.Sprintf("%q + %q x %d + tail(%v)", c.head, c.unit, n/len(c.unit), withTail), "coregex": got, "regexp": want, "api": "Match"}, false)
+				}
+			}
+		}
 	}
 }
